@@ -64,10 +64,10 @@ TypeNames == IF Types = {} THEN DOMAIN Family ELSE Types
 (* ---- universes ---- *)
 Bits8 == { <<0,0,0,0,0,0,0,0>>, <<1,1,1,1,1,1,1,1>>, <<0,1,0,1,0,1,0,0>>, <<1,0,0,0,0,0,0,0>>, <<0,0,0,0,0,0,0,1>> }
 Bits12 == { <<0,0,0,0,0,0,0,0,0,0,0,0>>, <<1,1,1,1,1,1,1,1,1,1,1,1>>, <<1,0,0,0,0,0,0,0,0,0,0,1>>, <<0,0,0,0,0,0,0,1,1,0,0,0>> }
-UV == [ ints |-> IF Big THEN {-129, -1, 0, 1, 127, 255, 256, 65536} ELSE {-1, 0, 1, 200},
+UV == [ ints |-> IF Big THEN {-129, 0, 1, 255, 65536} ELSE {-1, 0, 1, 200}, bools |-> BOOLEAN,
         strs |-> IF Big THEN {<<>>, cA, <<233, 98>>, <<34, 92>>, <<1>>, <<65536>>} ELSE {<<>>, cA, <<233, 98>>},
         maxlen |-> 2, keys |-> {cA, cB}, ikeys |-> {-1, 0, 10}, bits |-> Bits8 \cup Bits12 ]
-US == [ ints |-> {1}, strs |-> {cA}, maxlen |-> IF Big THEN 2 ELSE 1, keys |-> {cA}, ikeys |-> {10}, bits |-> {<<0,1,0,1,0,1,0,0>>, <<1,0,0,0,0,0,0,0,0,0,0,1>>} ]
+US == [ ints |-> {1}, bools |-> {FALSE}, strs |-> {cA}, maxlen |-> IF Big THEN 2 ELSE 1, keys |-> {cA}, ikeys |-> {10}, bits |-> {<<0,1,0,1,0,1,0,0>>, <<1,0,0,0,0,0,0,0,0,0,0,1>>} ]
 
 O1(k, v) == JObj([q \in {k} |-> v])
 Nest == O1(cA, JArr(<<JInt(1), O1(cB, JInt(2))>>))
